@@ -313,7 +313,19 @@ func intrinsicPure(f *ssa.Function) bool {
 }
 
 func (v *FnVC) canInline(fr *frame, callee *ssa.Function) bool {
-	if len(callee.Blocks) == 0 || fr.depth >= maxInlineDepth || v.inlining[callee] {
+	if len(callee.Blocks) == 0 {
+		return false
+	}
+	// Helpers that take a function (common.WriteBlockBody(w, func() {...})) are re-entered through their callback as
+	// deep as the source nests them, and so are the anonymous closures of the function under verification: both are
+	// bounded by the lexical nesting, so they get a deeper limit and may be re-entered; anything else is inlined at
+	// most once at a time (recursion is not unrolled).
+	lexical := takesFunc(callee) || (callee.Parent() != nil && isAncestor(v.fn, callee))
+	if lexical {
+		if fr.depth >= 3*maxInlineDepth || v.inlining[callee] >= 6 {
+			return false
+		}
+	} else if fr.depth >= maxInlineDepth || v.inlining[callee] > 0 {
 		return false
 	}
 	if con := v.w.Contracts.ByFunc[callee]; con != nil && con.NoInline {
@@ -322,8 +334,10 @@ func (v *FnVC) canInline(fr *frame, callee *ssa.Function) bool {
 	if !v.w.InModule(callee) {
 		return false
 	}
-	if v.w.IsParametric(callee) {
-		return false // higher-order framework functions are summarised by the effects of their callbacks
+	if v.w.IsParametric(callee) && !(v.w.Contracts.ParametricFuncs[FuncKey(callee)] && takesFunc(callee)) {
+		// higher-order framework functions (visitors, rewriters) are summarised by the effects of their callbacks; a
+		// small helper that is declared parametric by name (common.WriteBlockBody) is still inlined when it can be
+		return false
 	}
 	n := 0
 	ownClosure := callee.Parent() != nil && isAncestor(v.fn, callee) && v.w.Contracts.ByFunc[callee] == nil
@@ -337,8 +351,12 @@ func (v *FnVC) canInline(fr *frame, callee *ssa.Function) bool {
 			}
 		}
 		for _, ins := range b.Instrs {
-			switch ins.(type) {
-			case *ssa.Defer, *ssa.Go, *ssa.Select, *ssa.Send:
+			switch d := ins.(type) {
+			case *ssa.Defer:
+				if !deferRunsAtEveryExit(d) {
+					return false
+				}
+			case *ssa.Go, *ssa.Select, *ssa.Send:
 				return false
 			}
 		}
@@ -346,7 +364,7 @@ func (v *FnVC) canInline(fr *frame, callee *ssa.Function) bool {
 	if con := v.w.Contracts.ByFunc[callee]; con != nil && con.Inline {
 		return true
 	}
-	if callee.Parent() != nil && fr.fn != nil && (callee.Parent() == fr.fn || isAncestor(fr.fn, callee)) {
+	if callee.Parent() != nil && fr.fn != nil && (callee.Parent() == fr.fn || isAncestor(fr.fn, callee) || isAncestor(v.fn, callee)) {
 		// anonymous closures of the function being executed (w.Indented(func() {...})) are part of its body
 		return n <= 600
 	}
@@ -356,12 +374,15 @@ func (v *FnVC) canInline(fr *frame, callee *ssa.Function) bool {
 func (v *FnVC) inline(fr *frame, st *State, callee *ssa.Function, args, bind []Val, rt types.Type) Val {
 	reach := fr.reach[fr.curBlock.Index]
 	sub := &frame{fn: callee, depth: fr.depth + 1, params: args, freeVars: bind, entry: st.clone()}
-	sub.own = (fr.top || fr.own) && callee.Parent() != nil && isAncestor(v.fn, callee) && callee.Name() != "" && v.w.Contracts.ByFunc[callee] == nil
+	sub.own = (fr.top || fr.own || fr.ownCtx) && callee.Parent() != nil && isAncestor(v.fn, callee) && callee.Name() != "" && v.w.Contracts.ByFunc[callee] == nil
+	// a helper that only calls the function it is given (common.WriteBlockBody): the closures of the verified function
+	// that it calls back are still part of that function's body
+	sub.ownCtx = (fr.top || fr.own || fr.ownCtx) && !sub.own && takesFunc(callee)
 	if len(args) != len(callee.Params) || len(bind) != len(callee.FreeVars) {
 		panic(unsupported("inline arity mismatch for %s", callee.Name()))
 	}
-	v.inlining[callee] = true
-	defer delete(v.inlining, callee)
+	v.inlining[callee]++
+	defer func() { v.inlining[callee]-- }()
 	v.runFrame(sub, st, reach)
 	if len(sub.rets) == 0 {
 		// callee never returns
@@ -470,7 +491,7 @@ func (v *FnVC) applyContract(fr *frame, st *State, con *Contract, callee *ssa.Fu
 		if v.w.mentionsCallObservers(c.Expr, con.PkgShort, 0) {
 			continue
 		}
-		env := &specEnv{v: v, fr: sub, st: st, old: pre, result: res, resType: callee.Signature.Results()}
+		env := &specEnv{v: v, fr: sub, st: st, old: pre, result: res, resType: callee.Signature.Results(), pol: -1}
 		// a clause that mentions the callee's locals cannot be stated at a call site: it is simply not assumed
 		if t, ok := tryEvalBool(env, c.Expr); ok {
 			v.sc.Assert(Implies(reach, t))
@@ -808,7 +829,7 @@ func tryEvalBool(env *specEnv, e SExpr) (t Term, ok bool) {
 	defer func() {
 		if r := recover(); r != nil {
 			if _, isU := r.(unsupportedErr); isU {
-				env.v.sc.lines = env.v.sc.lines[:mark]
+				env.v.sc.rollbackTo(mark)
 				ok = false
 				return
 			}
@@ -913,4 +934,25 @@ func (w *World) mentionsCallObservers(e SExpr, pkgShort string, depth int) bool 
 		return any(x.X)
 	}
 	return false
+}
+
+// takesFunc: the function has a parameter of function type and is not itself recursive through a static call
+func takesFunc(f *ssa.Function) bool {
+	has := false
+	for _, p := range f.Params {
+		if _, ok := under(p.Type()).(*types.Signature); ok {
+			has = true
+		}
+	}
+	if !has {
+		return false
+	}
+	for _, b := range f.Blocks {
+		for _, ins := range b.Instrs {
+			if ci, ok := ins.(ssa.CallInstruction); ok && ci.Common().StaticCallee() == f {
+				return false
+			}
+		}
+	}
+	return true
 }
